@@ -1232,17 +1232,20 @@ class Interp:
                 add = v["parts"] if is_str(v) else ([C(v["c"])] if isinstance(v, dict) and v.get("v") == "char" else [("h", v)])
                 st.env[tgt] = S(rv["parts"] + add)
                 return [(st, {"v": "unit"})]
-        if k == "list" and not rv.get("field") and not rv.get("open") and m in ("concat",) and not argv and all(is_str(x) for x in rv["items"]):
+        # a list of pieces (string constants and string-valued expressions) glued together: each non-constant piece is a hole
+        piece = lambda x: x["parts"] if is_str(x) else ([C(x["c"])] if isinstance(x, dict) and x.get("v") == "char" else [("h", x)])
+        strish = lambda x: is_str(x) or (isinstance(x, dict) and x.get("v") in ("hole", "char"))
+        if k == "list" and not rv.get("field") and not rv.get("open") and m in ("concat",) and not argv and rv["items"] and all(strish(x) for x in rv["items"]) and any(is_str(x) for x in rv["items"]):
             parts = []
             for x in rv["items"]:
-                parts += x["parts"]
+                parts += piece(x)
             return [(st, S(parts))]
-        if k == "list" and not rv.get("field") and not rv.get("open") and m == "join" and len(argv) == 1 and is_str(argv[0]) and all(is_str(x) for x in rv["items"]):
+        if k == "list" and not rv.get("field") and not rv.get("open") and m == "join" and len(argv) == 1 and is_str(argv[0]) and rv["items"] and all(strish(x) for x in rv["items"]) and any(is_str(x) for x in rv["items"]):
             parts = []
             for i_, x in enumerate(rv["items"]):
                 if i_:
                     parts += argv[0]["parts"]
-                parts += x["parts"]
+                parts += piece(x)
             return [(st, S(parts))]
         if k == "selfsub":
             key = "%s::%s" % (rv["ty"], m)
